@@ -37,6 +37,7 @@ const (
 	OpTruncate
 	OpMarker
 	OpSyncFail // a sync that returned an error (nothing became durable)
+	OpFault    // an injected failure of any call (Marker: call kind); no effect on contents
 )
 
 func (k OpKind) String() string {
@@ -224,6 +225,9 @@ func (d *Disk) fault(kind CallKind) FaultKind {
 		return FaultNone
 	}
 	d.Faults++
+	if d.logOn {
+		d.log = append(d.log, Op{Kind: OpFault, Marker: kind.String()})
+	}
 	if idx == p.Index {
 		k := p.Kind
 		if k == FaultShort && kind != CallWrite {
